@@ -131,6 +131,15 @@ class C11Hook:
         elif kind == "compile" and rec["kind"] == "pickles":
             prec = ts.records[op["of"]]
             self._check_pickles(run, ts, oi, self._gkey_compiler(ts, op["c"]), prec["snap"], rec["snap"], rec["norm"], rec["draws"])
+            # "equal input gives equal ids": wherever the counter stands, the assignment of draws to pickles, pickle
+            # steps and references is the one a fresh generator gives (compared draw-index-wise, ids only)
+            pop = ts.spec["ops"][op["of"]]
+            ms = ts.spec["matchers"][pop["m"]] if pop.get("m") is not None else None
+            ref = engine.ALONE.compile(pop["text"], ms, op.get("uri", "u.feature"), "path" if pop.get("src") == "path" else "text")
+            if ref["kind"] == "pickles":
+                d = engine.first_diff(id_skeleton(ref["norm"]), id_skeleton(rec["norm"]), "$pickles.assignment")
+                if d:
+                    run.violation("C11-canonical", ts.ti, oi, d, id_skeleton(ref["norm"]), id_skeleton(rec["norm"]))
             n = len(idmodel.canonical_pickle_order(rec["snap"]))
             if n != len(rec["draws"]):
                 run.violation("C11-dense", ts.ti, oi, "$pickles.gaps", "every id drawn by compile appears in a pickle", "%d drawn, %d used" % (len(rec["draws"]), n))
@@ -166,6 +175,12 @@ class C11Hook:
 
 
 FRESH = {}
+
+
+def id_skeleton(pickles):
+    """Only the id-bearing part of a normalised pickle list."""
+    return [[p.get("astNodeIds"), p.get("id"), [[s.get("astNodeIds"), s.get("id")] for s in p.get("steps", [])], [t.get("astNodeId") for t in p.get("tags", [])]]
+            for p in pickles]
 
 
 # ----------------------------------------------------------------------------- scenarios
